@@ -139,7 +139,7 @@ class MergeEngine:
         # merge in overrides
         for hook, triggers in hooks.items():
             for trigger in triggers:
-                self.add_trigger(hook, trigger)
+                self.add_trigger(hook, trigger, trigger.get_required_csets(mode))
 
         self.regenerate_csets()
         for x in hooks:
